@@ -94,9 +94,9 @@ pub fn check_against_region(data: &[u32], w: i32, h: i32, reg: &Region, margin: 
 /// the polyline that gets stroked: the path itself, or its flattening with the stroker's tolerance
 /// (0.1 device pixels, scaled by the transform) when it has curves
 pub fn stroke_polyline(path: &Path, t: &Transform) -> Vec<Sub> {
-    let path = &straighten_axis_aligned_curves(path);
+    let tol = 0.1 / t.determinant().abs().sqrt();
+    let path = &straighten_axis_aligned_curves(path, tol);
     if has_curves(path) {
-        let tol = 0.1 / t.determinant().abs().sqrt();
         subpaths(&path.flatten(tol), 1)
     } else {
         subpaths(path, 1)
@@ -106,7 +106,9 @@ pub fn stroke_polyline(path: &Path, t: &Transform) -> Vec<Sub> {
 /// A curve whose points all share one x or one y is a walk along a straight line: from its start to its
 /// turning points (where it runs beyond an end point and comes back) to its end. Known in closed form,
 /// so such curves are judged without flatten().
-fn straighten_axis_aligned_curves(path: &Path) -> Path {
+/// (only where every turning point lies beyond the nearer end point by well over the flattening tolerance
+/// `tol`: an overshoot within the tolerance is legitimately flattened away, which turns the end cap around)
+fn straighten_axis_aligned_curves(path: &Path, tol: f32) -> Path {
     let mut ops = Vec::new();
     let mut cur: Option<Point> = None;
     let mut start: Option<Point> = None;
@@ -185,8 +187,10 @@ fn straighten_axis_aligned_curves(path: &Path) -> Path {
                 all.push(end);
                 let same_y = all.iter().all(|q| q.y == from.y);
                 let same_x = all.iter().all(|q| q.x == from.x);
-                if same_y || same_x {
-                    let coords: Vec<f64> = all.iter().map(|q| if same_y { q.x as f64 } else { q.y as f64 }).collect();
+                let coords: Vec<f64> = all.iter().map(|q| if same_y { q.x as f64 } else { q.y as f64 }).collect();
+                let (lo, hi) = (coords[0].min(coords[coords.len() - 1]), coords[0].max(coords[coords.len() - 1]));
+                let clear = (same_y || same_x) && turning(&coords).iter().all(|v| (*v < lo - 6. * tol as f64) || (*v > hi + 6. * tol as f64));
+                if clear {
                     for v in turning(&coords) {
                         ops.push(PathOp::LineTo(if same_y { Point::new(v as f32, from.y) } else { Point::new(from.x, v as f32) }));
                     }
@@ -205,10 +209,27 @@ fn has_curves(p: &Path) -> bool {
     p.ops.iter().any(|o| matches!(o, PathOp::QuadTo(..) | PathOp::CubicTo(..)))
 }
 
+/// One case in ten is drawn with user space magnified by a power of two and everything given in user space
+/// (path, width, dashes) shrunk by the same factor - exact in f32, the same picture (C11 checks that it is bit
+/// for bit) - while the region oracle keeps working with the case as written.
+pub fn stroke_possibly_scaled(dt: &mut DrawTarget, path: &Path, style: &StrokeStyle, t: &Transform, aa: bool, st: &mut Stats) {
+    let hsh = crate::prng::hash_str(&format!("{:?}{:?}{:?}", path, style, t));
+    let op = crate::ops::Op::Stroke(path.clone(), crate::gen::SrcSpec::Solid(0xffffffff), style.clone(), opts(BlendMode::SrcOver, 1., aa));
+    if hsh % 10 == 0 {
+        let e = [-14i32, -13, -12, -11, -10, -9, 9, 10, 11, 12][(hsh / 10 % 10) as usize];
+        let k = (2.0f32).powi(e);
+        dt.set_transform(&Transform::scale(k, k).then(t));
+        crate::ops::scaled_twin(&op, k).expect("strokes have twins").apply(dt);
+        st.add("strokes_drawn_under_a_power_of_two_user_scale", 1);
+    } else {
+        dt.set_transform(t);
+        op.apply(dt);
+    }
+}
+
 pub fn run_stroke_case(c: &StrokeCase, st: &mut Stats) -> (RegionResult, bool) {
     let mut dt = DrawTarget::new(c.w, c.h);
-    dt.set_transform(&c.t);
-    dt.stroke(&c.path, &Source::Solid(WHITE), &c.style, &opts(BlendMode::SrcOver, 1., c.aa));
+    stroke_possibly_scaled(&mut dt, &c.path, &c.style, &c.t, c.aa, st);
     // the statement is about the polyline: for curved paths that is the flattened path (C16 owns
     // the fidelity of flatten()); with bevel and miter joins the region depends on where its vertices are
     let subs = stroke_polyline(&c.path, &c.t);
@@ -280,7 +301,7 @@ fn gen_polyline_path(rng: &mut Rng, w: i32, h: i32, curves: bool, min_seg: f64) 
                 // or beyond them: the curve runs past an end point and comes back
                 let horizontal = rng.chance(0.5);
                 if horizontal { p.y = prev.y } else { p.x = prev.x }
-                let mut ctrl = |rng: &mut Rng| -> Point {
+                let ctrl = |rng: &mut Rng| -> Point {
                     let k = *rng.pick(&[-1.0f32, -0.5, 0.25, 0.5, 1.5, 2.0, 3.0]);
                     if horizontal { Point::new(prev.x + (p.x - prev.x) * k, prev.y) } else { Point::new(prev.x, prev.y + (p.y - prev.y) * k) }
                 };
@@ -354,6 +375,9 @@ fn well_conditioned(path: &Path, t: &Transform) -> bool {
 
 pub fn gen_transform_for_stroke(rng: &mut Rng, w: i32, h: i32) -> Transform {
     let (cx, cy) = (w as f32 / 2., h as f32 / 2.);
+    if rng.chance(0.08) {
+        return special_transform(rng, w as f64, h as f64);
+    }
     match rng.below(8) {
         0 | 1 | 2 => Transform::identity(),
         3 => Transform::translation(rng.range(-3., 3.) as f32, rng.range(-3., 3.) as f32),
@@ -436,6 +460,47 @@ pub fn run(ctx: &Ctx) -> Outcome {
         }
         if want || !co.violations.is_empty() {
             co.desc = Some(case_desc(&c));
+        }
+        co
+    });
+
+    // a polyline that runs back and forth over itself hundreds of times: the pieces of the stroke pile up
+    // winding numbers far beyond what a narrow counter holds
+    run_cases(ctx, &mut out, SubSpec { name: "many_passes_over_the_same_spot", cases: ctx.n(24, 600), exhaustive: false, max_secs: 60. }, |i, want, st| {
+        let mut rng = ctx.rng("many_passes_over_the_same_spot", i);
+        let w = rng.int(12, 30) as i32;
+        let h = rng.int(8, 20) as i32;
+        let passes = *rng.pick(&[100usize, 127, 128, 129, 130, 200, 255, 256, 257, 300, 512, 513]);
+        let (x0, x1, y) = (3.0f32, w as f32 - 3., h as f32 / 2.);
+        let mut pb = PathBuilder::new();
+        pb.move_to(x0, y);
+        for k in 0..passes {
+            pb.line_to(if k % 2 == 0 { x1 } else { x0 }, y);
+        }
+        let style = StrokeStyle { width: rng.range(2., 6.) as f32, cap: *rng.pick(&[LineCap::Butt, LineCap::Square]), join: *rng.pick(&[LineJoin::Bevel, LineJoin::Miter, LineJoin::Round]), miter_limit: 2., dash_array: vec![], dash_offset: 0. };
+        let c = StrokeCase { w, h, path: pb.finish(), style, t: Transform::identity(), aa: rng.chance(0.7) };
+        let mut co = CaseOut::default();
+        co.hash = crate::prng::hash_str(&format!("{}{:?}{}{}", passes, c.style, w, h));
+        // the region is that of a single pass: every pass covers the same rectangle (plus caps and joins at the ends)
+        let mut one = PathBuilder::new();
+        one.move_to(x0, y);
+        one.line_to(x1, y);
+        let single = StrokeCase { w, h, path: one.finish(), style: c.style.clone(), t: c.t, aa: c.aa };
+        let mut dt = DrawTarget::new(w, h);
+        dt.stroke(&c.path, &Source::Solid(WHITE), &c.style, &opts(BlendMode::SrcOver, 1., c.aa));
+        let subs = stroke_polyline(&single.path, &single.t);
+        let reg = stroke_region(&subs, c.style.width as f64, cap_of(c.style.cap), join_of(c.style.join), c.style.miter_limit as f64, &T64::from(&c.t));
+        // (reversal joins at both ends stay within half a width of the end points: margin of half a width + 1)
+        let res = check_against_region(dt.get_data(), w, h, &reg, c.style.width as f64 / 2. + 1.0);
+        st.add("passes", passes as u64);
+        co.nontrivial = res.inside > 0 && res.outside > 0;
+        if let Some(v) = res.violation {
+            co.viol("C04", format!("{} passes over the same segment: {}", passes, v));
+        }
+        if want || !co.violations.is_empty() {
+            let mut d = case_desc(&single);
+            d.set("passes_over_this_segment", J::Int(passes as i64));
+            co.desc = Some(d);
         }
         co
     });
